@@ -31,8 +31,8 @@ class DelaySystemLead(DelaySystem):
     lead_in_time = 3.0
 
 
-def grid(t0, n):
-    return t0 / 2.0 + np.arange(n) * 1.0
+def grid(t0, n, st=2):
+    return t0 / 2.0 + np.arange(n) * (st / 2.0)
 
 
 class AntennaDriver:
@@ -64,11 +64,11 @@ class AntennaDriver:
         self.known = []
 
     # ---- comparison of a real waveform with the predicted signal part --------------
-    def check_wave(self, where, real, t0, pred, gen, frozen=None, stale_ok=False):
+    def check_wave(self, where, real, t0, pred, gen, frozen=None, stale_ok=False, st=2):
         """pred: spec values (what the property demands); frozen: what the as-is cache model holds"""
         self.obs += 1
         n = len(pred)
-        et = grid(t0, n)
+        et = grid(t0, n, st)
         if len(real.times) != n or not np.allclose(real.times, et, rtol=0, atol=1e-9):
             raise Divergence(where + ' times', list(et), list(map(float, real.times)))
         v = np.asarray(real.values, dtype=float)
@@ -87,19 +87,19 @@ class AntennaDriver:
         if self.kind == 'system':
             return      # front end mixes noise samples: only counts / grids are checked for noisy systems
         for k in range(n):
-            key = (gen, t0 + 2 * k)
+            key = (gen, t0 + st * k)
             if key in self.noise:
                 if abs(self.noise[key] - res[k]) > 1e-7:
                     if stale_ok:
                         self.known.append(('D9', where))
                         return
-                    raise Divergence(where + ' noise at tick %d (generation %d)' % (t0 + 2 * k, gen),
+                    raise Divergence(where + ' noise at tick %d (generation %d)' % (t0 + st * k, gen),
                                      self.noise[key], float(res[k]))
             else:
                 self.noise[key] = float(res[k])
         # a different generation must not repeat the same noise
         for g2 in {g for g, _ in self.noise} - {gen}:
-            same = [abs(self.noise[(g2, t0 + 2 * k)] - res[k]) < 1e-12 for k in range(n) if (g2, t0 + 2 * k) in self.noise]
+            same = [abs(self.noise[(g2, t0 + st * k)] - res[k]) < 1e-12 for k in range(n) if (g2, t0 + st * k) in self.noise]
             if len(same) >= 2 and all(same):
                 raise Divergence(where + ' noise after reset', 'different from generation %d' % g2, 'identical')
 
@@ -141,19 +141,33 @@ class AntennaDriver:
                                  [i for i, w in enumerate(allw) if any(w is x for x in waves)])
             if op == 'IsHit' and hit != (len(want) > 0):
                 raise Divergence('is_hit', len(want) > 0, hit)
+        elif op == 'ReceiveFail':
+            s_ = last['s']
+            good = pyrex.Signal(grid(s_['t0'], len(s_['v'])), [float(x) for x in s_['v']], value_type='voltage')
+            bad = pyrex.Signal(grid(s_['t0'], len(s_['v'])), [1.0] * len(s_['v']), value_type=None)
+            n_before = len(self.ant.signals)
+            try:
+                o.receive([good, bad], polarization=[(0, 0, 1), (1, 0, 0)])
+            except ValueError:
+                pass
+            else:
+                raise Divergence('receive([voltage, undefined])', 'ValueError', 'accepted')
+            if len(self.ant.signals) != n_before or len(o.signals) != n_before:
+                raise Divergence('signals stored by a refused receive()', n_before, (len(self.ant.signals), len(o.signals)))
         elif op in ('FullWaveform', 'IsHitDuring'):
-            t = grid(last['t0'], last['n'])
+            t = grid(last['t0'], last['n'], last['st'])
             if op == 'IsHitDuring':
                 got = o.is_hit_during(t)
                 if not self.noisy and bool(got) != bool(last['trig']):
                     raise Divergence('is_hit_during(%s)' % list(t), last['trig'], got)
             else:
                 w = o.full_waveform(t)
-                self.check_wave('full_waveform(%d,%d)' % (last['t0'], last['n']), w, last['t0'],
-                                [float(x) for x in last['res']], last['gen'])
+                self.check_wave('full_waveform(%d,%d,step %d)' % (last['t0'], last['n'], last['st']), w, last['t0'],
+                                [float(x) for x in last['res']], last['gen'], st=last['st'])
         elif op == 'MakeNoise':
-            w = o.make_noise(grid(last['t0'], last['n']))
-            self.check_wave('make_noise(%d,%d)' % (last['t0'], last['n']), w, last['t0'], [0.0] * last['n'], last['gen'])
+            w = o.make_noise(grid(last['t0'], last['n'], last['st']))
+            self.check_wave('make_noise(%d,%d,step %d)' % (last['t0'], last['n'], last['st']), w, last['t0'], [0.0] * last['n'], last['gen'],
+                            st=last['st'])
         elif op == 'Clear':
             o.clear(reset_noise=bool(last['reset']))
             if len(self.ant.signals) or len(o.signals) or len(o.all_waveforms) or len(o.waveforms) or o.is_hit:
